@@ -339,6 +339,39 @@ theorem empty_string_takes_default (d : Desc) (earlier : List (Option Val)) :
     resolve d ⟨[], earlier ++ [some (.str [])]⟩ = .ok d.dflt := by
   simp [resolve, applyOpts, structFiles, mergeStruct, withDefault]
 
+/-- **precedence** — a string setting with one option and two config files, in the property's own
+words: with every given value non-empty, the effective value is the flag's, else the environment
+variable's, else the later file's, else the earlier file's, else the default. -/
+theorem precedence (d : Desc) (dv : Str) (hk : d.kind = .str) (hd : d.dflt = .str dv)
+    (f e a b : Option Str)
+    (hf : ∀ x, f = some x → x ≠ []) (he : ∀ x, e = some x → x ≠ [])
+    (ha : ∀ x, a = some x → x ≠ []) (hb : ∀ x, b = some x → x ≠ []) :
+    resolve d ⟨[{ delim := none, flag := f.map fun x => [x], env := e }], [a.map .str, b.map .str]⟩ =
+      .ok (.str ((f <|> e <|> b <|> a).getD dv)) := by
+  have ne : ∀ x : Str, x ≠ [] → x.isEmpty = false := by
+    intro x hx; cases x with | nil => exact absurd rfl hx | cons _ _ => rfl
+  cases f with
+  | some x =>
+    have := ne x (hf x rfl)
+    simp [resolve, applyOpts, cmdField, rawValues, isZero, hk, this]
+  | none =>
+    cases e with
+    | some x =>
+      have := ne x (he x rfl)
+      simp [resolve, applyOpts, cmdField, rawValues, isZero, hk, this]
+    | none =>
+      cases b with
+      | some x =>
+        have := ne x (hb x rfl)
+        cases a <;> simp [resolve, applyOpts, cmdField, rawValues, isZero, hk, structFiles, mergeStruct, withDefault, this]
+      | none =>
+        cases a with
+        | some x =>
+          have := ne x (ha x rfl)
+          simp [resolve, applyOpts, cmdField, rawValues, isZero, hk, structFiles, mergeStruct, withDefault, this]
+        | none =>
+          simp [resolve, applyOpts, cmdField, rawValues, isZero, hk, hd, structFiles, mergeStruct, withDefault]
+
 /-! ### list-valued options -/
 
 /-- Full-strength statement for a list-valued option: every address given on the command line
@@ -451,6 +484,13 @@ theorem checked_final_eq_used_partial (d : Desc) (s : Src) (env : Str → Str) (
     ∃ u, used d s env = .ok u ∧ checkedFinal d s env = .ok (some u) := by
   refine ⟨expandVal env r, by simp [used, hr, Except.map], ?_⟩
   simp [checkedFinal, hr, Except.map, hph, hoz]
+
+/-- **validated_eq_used** (partial) — the same in the property's words: the value validation
+checks last is the value Refinery then uses, outside the two coded exceptions. -/
+theorem validated_eq_used_partial (d : Desc) (s : Src) (env : Str → Str) (r : Val)
+    (hr : resolve d s = .ok r) (hph : withPlaceholder d r = r) (hoz : (d.omitEmpty && isZero r) = false) :
+    ∃ u, used d s env = .ok u ∧ checkedFinal d s env = .ok (some u) :=
+  checked_final_eq_used_partial d s env r hr hph hoz
 
 /-- Full statement, pass 2: whatever the final validation pass checks is the value used. -/
 def CheckedFinalFull : Prop :=
